@@ -155,9 +155,10 @@ def encodeSequences (llT mlT ofT : Fse.ETable) (w : BitWriter) (coded : List Cod
 /-- everything of the sequences section after the count: modes byte (three `Encoded` tables:
 `2 << 6 | 2 << 4 | 2 << 2`), the LL, OF, ML table descriptions, the interleaved bitstream -/
 def encodeSeqSectionReal (coded : List CodedSeq) : Except Fault (List Byte) :=
-  match Fse.buildTableFromData (coded.map (·.ll.1)) 9 true,
-        Fse.buildTableFromData (coded.map (·.ml.1)) 9 true,
-        Fse.buildTableFromData (coded.map (·.of.1)) 8 true with
+  -- max accuracy logs and the zero-bit-avoidance flag: extracted from `compress_block`/`choose_table` on every run
+  match Fse.buildTableFromData (coded.map (·.ll.1)) Gen.llEncMaxLog Gen.seqEncAvoidZeroBits,
+        Fse.buildTableFromData (coded.map (·.ml.1)) Gen.mlEncMaxLog Gen.seqEncAvoidZeroBits,
+        Fse.buildTableFromData (coded.map (·.of.1)) Gen.ofEncMaxLog Gen.seqEncAvoidZeroBits with
   | .ok llT, .ok mlT, .ok ofT =>
     dumpBytes <|
       match BitWriter.new.writeBits (2 * 64 + 2 * 16 + 2 * 4) 8 with
